@@ -27,7 +27,10 @@ CLAIMED = {
 }
 
 LIM_NOTE = COMMON_NOTE + ("Axioms: none for the theorems (closed under the global context); the rate function is a parameter of the theorems (any function), "
-    "the Flocq model of C18 is plugged in only for execution in the correspondence. HashMap trusted as a finite map; pre-1970 timestamps outside the model.")
+    "the Flocq model of C18 is plugged in only for execution in the correspondence. HashMap trusted as a finite map; pre-1970 timestamps outside the model. "
+    "T1b: the arithmetic of rate_limit (guards, every let of the loop body, the arguments of both store writes, the four response fields) is re-translated from the current "
+    "source by tools/extract_limiter.py on every run and proved equal to the hand model for every input (Limiter/GenTie.v, axiom-free; outside the closure of Properties/*.vo, "
+    "status recorded in the evidence under coverage.source_tie); the translator (a recursive-descent parser for the expression subset) is trusted.")
 CLAIMED.update({
     "C01": dict(
         text="Machine-checked theorem (Properties/C01.v): for every key type, store, configuration, oracle stream and multi-key history with non-decreasing timestamps in which a key is "
